@@ -92,19 +92,34 @@ mod proofs {
         crate::k3_scalars::k3_ed448_scalar(&mut KaniSrc)
     }
     #[kani::proof]
-    #[kani::unwind(300)]
+    #[kani::unwind(40)]
     fn k4_p256_tag() {
         crate::k4_elements::k4_p256_tag(&mut KaniSrc)
     }
     #[kani::proof]
     #[kani::unwind(300)]
+    fn k4_p256_tag05() {
+        crate::k4_elements::k4_p256_tag05(&mut KaniSrc)
+    }
+    #[kani::proof]
+    #[kani::unwind(40)]
     fn k4_secp256k1_tag() {
         crate::k4_elements::k4_secp256k1_tag(&mut KaniSrc)
     }
     #[kani::proof]
     #[kani::unwind(300)]
+    fn k4_secp256k1_tag05() {
+        crate::k4_elements::k4_secp256k1_tag05(&mut KaniSrc)
+    }
+    #[kani::proof]
+    #[kani::unwind(40)]
     fn k4_secp256k1_tr_tag() {
         crate::k4_elements::k4_secp256k1_tr_tag(&mut KaniSrc)
+    }
+    #[kani::proof]
+    #[kani::unwind(300)]
+    fn k4_secp256k1_tr_tag05() {
+        crate::k4_elements::k4_secp256k1_tr_tag05(&mut KaniSrc)
     }
     #[kani::proof]
     #[kani::unwind(40)]
@@ -197,8 +212,11 @@ pub fn run_native(name: &str, vals: Vec<u8>) -> Result<(), String> {
         "k3_p256_scalar" => crate::k3_scalars::k3_p256_scalar(&mut s),
         "k3_ed448_scalar" => crate::k3_scalars::k3_ed448_scalar(&mut s),
         "k4_p256_tag" => crate::k4_elements::k4_p256_tag(&mut s),
+        "k4_p256_tag05" => crate::k4_elements::k4_p256_tag05(&mut s),
         "k4_secp256k1_tag" => crate::k4_elements::k4_secp256k1_tag(&mut s),
+        "k4_secp256k1_tag05" => crate::k4_elements::k4_secp256k1_tag05(&mut s),
         "k4_secp256k1_tr_tag" => crate::k4_elements::k4_secp256k1_tr_tag(&mut s),
+        "k4_secp256k1_tr_tag05" => crate::k4_elements::k4_secp256k1_tr_tag05(&mut s),
         "k4_tr_signature_length" => crate::k4_elements::k4_tr_signature_length(&mut s),
         "k5_keypackage_decode" => crate::k5_framing::k5_keypackage_decode(&mut s),
         "k5_keypackage_roundtrip" => crate::k5_framing::k5_keypackage_roundtrip(&mut s),
